@@ -48,6 +48,11 @@ def check_cfg(ctx, fx, cfg):
     polls = sorted((i.get("trait"), i["self"]) for i in fx.d["impls"] if i.get("trait") in ("futures_core::stream::Stream", "core::future::future::Future", "futures_core::future::FusedFuture", "futures_core::stream::FusedStream", "futures_sink::Sink"))
     ok = polls == [("core::future::future::Future", "addr::Addr<A>")]
     ctx.require(ok, "R13.7", "hand-written-polls@" + cfg, "a new hand-written Future / Stream implementation in the crate: its Pending paths must register a waker (not decidable here) — found %s" % polls, site=[i["loc"] for i in fx.d["impls"] if i.get("trait") in ("futures_core::stream::Stream", "futures_core::future::FusedFuture", "futures_core::stream::FusedStream")][:1] or None, detail=polls)
+    # R13.9 dropping the last handle ends a stream-attached actor even with timers running: timer futures own nothing that
+    # keeps the mailbox open, also while they sleep (shared with C05)
+    from props import c05 as _c05
+    if hasattr(_c05, "check_timers_own_nothing"):
+        _c05.check_timers_own_nothing(ctx, fx, cfg, "R13.9")
     # R13.8 messages sent to the address keep their own order: one queue per mailbox, every submission the same kind of
     # send into it, the receiver read only by the dequeue (shared with C01)
     from props.c01 import check_single_queue
